@@ -521,7 +521,9 @@ func (o *Origin) RoundTrip(req *http.Request) (*http.Response, error) {
 	if bg == 1 && kind == "304" {
 		w.mu.Lock()
 		if tk, ok := w.servedX[x]; ok {
-			w.apply304(tk, tag)
+			if a.CCP == 0 || !contains(a.Fl, "no-store") {
+				w.apply304(tk, tag)
+			}
 		} else {
 			w.bg304[x] = append(w.bg304[x], tag)
 		}
@@ -614,6 +616,15 @@ func sameButConditional(a, b http.Header) bool {
 		}
 	}
 	return true
+}
+
+func contains(s []string, x string) bool {
+	for _, v := range s {
+		if v == x {
+			return true
+		}
+	}
+	return false
 }
 
 func b2i(b bool) int {
